@@ -194,6 +194,17 @@ func (t *Table) addGlobalIndex(gsiInput *types.GlobalSecondaryIndex) error {
 	return nil
 }
 
+// SnapshotIndexes returns a function that puts the set of secondary indexes back as it is now;
+// an UpdateTable that fails half-way uses it to leave the table as it was
+func (t *Table) SnapshotIndexes() (restore func()) {
+	previous := make(map[string]*index, len(t.Indexes))
+	for name, i := range t.Indexes {
+		previous[name] = i
+	}
+
+	return func() { t.Indexes = previous }
+}
+
 func (t *Table) deleteIndex(indexName string) error {
 	if _, ok := t.Indexes[indexName]; !ok {
 		return types.NewError("ResourceNotFoundException", "Requested resource not found", nil)
